@@ -280,7 +280,29 @@ def r7(ctx):
     part_restart_rule(ctx, 'C02.R7', ['bs_recvCmdAck', 'bs_sendResAck', 'bs_recvResAck', 'bs_sendCmdAck'], 6)
 
 
+def r13(ctx):
+    ctx.rule('C02.R13', 'sibling agreement of the send states: in every send state (sendCmd, sendCmdCrc, sendResAck, sendCmdAck, '
+             'sendRes, sendResCrc, sendSyn) a received symbol advances the exchange only if ebusd really sent a symbol in this '
+             'step (guard "sending"); without it the state is left with an error. A state without this guard lets a symbol '
+             'that was merely buffered stand for the echo of a symbol that was never transmitted', minimum=10, star=True)
+    fb = ctx.fb
+    fn, sw, regs, edges, rmap = A.extracted_edges(fb)
+    n = 0
+    for e in edges:
+        if len(e['from']) != 1 or not e['from'][0].startswith('bs_send'):
+            continue
+        n += 1
+        g = set((a, b) for a, b in e['guards'])
+        ok = ('sending', True) in g or (('sending', True) not in g and e['result'] == 'RESULT_ERR_INVALID_ARG' and
+                                        set(e['to']) <= {'bs_skip', 'bs_ready'})
+        ctx.ob('C02.R13', fn, e['node'], ok, '%s -> %s (%s)' % (e['from'][0], '/'.join(e['to']), e['result']),
+               'requires a sent symbol: %s' % (('sending', True) in g))
+    if n < 10:
+        raise AnalysisBroken('C02.R13: only %d transitions out of send states found' % n)
+
+
 def run(ctx):
+    r13(ctx)
     r7(ctx)
     r1(ctx)
     r2(ctx)
